@@ -19,6 +19,31 @@ fn main() {
     let mut p: Polynomial<f64> = Polynomial::from_slice(&[3.0, 2.0, 1.0]);
     p.purge_coefficient(2);
     if p.get_coefficient(2) != 0.0 || p.get_coefficient(1) != 2.0 || p.get_coefficient(0) != 1.0 { found.push(format!("purge_coefficient(2) gave {:?}", p.get_coefficients())); }
+    // arithmetic agrees with the reference coefficient map, in every ownership form and for every pair of degrees
+    {
+        let mut seed = 1313u64;
+        let mut rnd = move || { seed = seed.wrapping_mul(6364136223846793005).wrapping_add(1442695040888963407); (((seed >> 33) as f64 / (1u64 << 31) as f64) * 2.0 - 1.0) * 8.0 };
+        for trial in 0..120 {
+            let (da, db) = (trial % 6, (trial / 6) % 5);
+            let mut a: Vec<f64> = (0..=da).map(|_| rnd().round() / 2.0).collect(); let mut b: Vec<f64> = (0..=db).map(|_| rnd().round() / 2.0).collect();
+            if a[da] == 0.0 { a[da] = 1.5; } if b[db] == 0.0 { b[db] = -2.0; }
+            let pa: Polynomial<f64> = Polynomial::from_slice(&a.iter().rev().cloned().collect::<Vec<_>>()); let pb: Polynomial<f64> = Polynomial::from_slice(&b.iter().rev().cloned().collect::<Vec<_>>());
+            let at = |v: &Vec<f64>, k: usize| if k < v.len() { v[k] } else { 0.0 };
+            let n = da.max(db) + 1;
+            let forms: Vec<(&str, Polynomial<f64>, f64)> = vec![("&a + &b", &pa + &pb, 1.0), ("&a - &b", &pa - &pb, -1.0), ("a + &b", pa.clone() + &pb, 1.0), ("a - &b", pa.clone() - &pb, -1.0),
+                ("&a + b", &pa + pb.clone(), 1.0), ("&a - b", &pa - pb.clone(), -1.0), ("a + b", pa.clone() + pb.clone(), 1.0), ("a - b", pa.clone() - pb.clone(), -1.0),
+                ("a += &b", { let mut t = pa.clone(); t += &pb; t }, 1.0), ("a -= &b", { let mut t = pa.clone(); t -= &pb; t }, -1.0)];
+            for (name, r, sg) in forms.iter() {
+                for k in 0..n { let want = at(&a, k) + sg * at(&b, k); if (r.get_coefficient(k) - want).abs() > 1e-12 { found.push(format!("{name} (deg {da}, deg {db}): coefficient of x^{k} is {} instead of {want}", r.get_coefficient(k))); break; } }
+            }
+            let sc = 2.5;
+            let rs = &pa * sc; let rn = -&pa; let rd = &pa / sc;
+            for k in 0..=da { if (rs.get_coefficient(k) - a[k] * sc).abs() > 1e-12 || (rn.get_coefficient(k) + a[k]).abs() > 1e-12 || (rd.get_coefficient(k) - a[k] / sc).abs() > 1e-12 { found.push(format!("scalar op / negation (deg {da}): coefficient {k} wrong")); break; } }
+            let x0 = 0.7; let via = (&pa - &pb).evaluate(x0); if (via - (pa.evaluate(x0) - pb.evaluate(x0))).abs() > 1e-9 * (1.0 + via.abs()) { found.push(format!("(a-b)(x) != a(x) - b(x) for deg {da}, deg {db}")); }
+        }
+        let mut seen = std::collections::BTreeSet::new();
+        found.retain(|f| seen.insert(f.split(" (deg").next().unwrap().to_string()));
+    }
     println!("{{\"found\": {}, \"failures\": {:?}}}", !found.is_empty(), found);
     std::process::exit(if found.is_empty() { 0 } else { 1 });
 }
